@@ -44,6 +44,14 @@ class BaseGotranODECodePrinter(StrPrinter):
             return f"Not(Eq({lhs}, {rhs}))"
         return f"{relop}({lhs}, {rhs})"
 
+    def _print_Float(self, expr):
+        # Print all digits needed to get the same number back (the default is 15 digits)
+        value = float(expr)
+        if value in (0.0, float("inf"), float("-inf")) and not expr.is_zero:
+            # Outside the range of a double (sympy can hold e.g. exp(1000.0))
+            return super()._print_Float(expr)
+        return repr(value)
+
     def _print_Exp1(self, expr):
         # The grammar has no symbol for Euler's number
         return "exp(1)"
